@@ -195,6 +195,15 @@ pub fn materialise(root: &Path, w: &World, program: &[u8]) -> std::io::Result<La
         }
         _ => (base.clone(), base.clone(), vec![]),
     };
+    let mut script_dir = script_dir;
+    if w.spelling == 12 {
+        // `lnx/../name`: lnx is a symlink to a directory elsewhere, so the kernel resolves
+        // `lnx/..` to that directory's parent, not to cwd; a same-named decoy sits in cwd
+        let other = base.join("other");
+        fs::create_dir_all(other.join("sub"))?;
+        script_dir = other;
+        let _ = fs::write(cwd.join(&fname), b"print(\"decoy: textual path collapse\")\n");
+    }
     let script = script_dir.join(&fname);
     fs::write(&script, program)?;
     if w.decoys {
@@ -292,6 +301,13 @@ pub fn materialise(root: &Path, w: &World, program: &[u8]) -> std::io::Result<La
             }
             argv1.extend_from_slice(b"a.sd");
         }
+        12 => {
+            let ln = cwd.join("lnx");
+            let _ = fs::remove_file(&ln);
+            std::os::unix::fs::symlink(script_dir.join("sub"), &ln)?;
+            argv1.extend_from_slice(b"lnx/../");
+            argv1.extend_from_slice(fname.as_bytes());
+        }
         _ => {
             argv1.append(&mut rel_prefix);
             argv1.extend_from_slice(fname.as_bytes());
@@ -325,7 +341,34 @@ fn make_socketpair() -> std::io::Result<(OwnedFd, OwnedFd)> {
 enum SinkHandle {
     File(PathBuf),
     Stream(std::thread::JoinHandle<Vec<u8>>),
+    // pseudo-terminal: the simulator keeps the slave side open until the reader has
+    // received every byte the shim saw accepted -- a hang-up while output is still in
+    // flight inside the tty layer may discard it (seen once under heavy machine load)
+    Pty(std::thread::JoinHandle<Vec<u8>>, std::sync::Arc<std::sync::atomic::AtomicUsize>, OwnedFd),
     Nothing,
+}
+
+fn spawn_counting_reader(fd: OwnedFd) -> (std::thread::JoinHandle<Vec<u8>>, std::sync::Arc<std::sync::atomic::AtomicUsize>) {
+    let count = std::sync::Arc::new(std::sync::atomic::AtomicUsize::new(0));
+    let c2 = count.clone();
+    let h = std::thread::spawn(move || {
+        let mut f = fs::File::from(fd);
+        let mut buf = vec![];
+        let mut chunk = [0u8; 4096];
+        loop {
+            match f.read(&mut chunk) {
+                Ok(0) => break,
+                Ok(n) => {
+                    buf.extend_from_slice(&chunk[..n]);
+                    c2.store(buf.len(), std::sync::atomic::Ordering::SeqCst);
+                }
+                Err(e) if e.kind() == std::io::ErrorKind::Interrupted => continue,
+                Err(_) => break,
+            }
+        }
+        buf
+    });
+    (h, count)
 }
 
 fn open_rw(path: &Path) -> std::io::Result<OwnedFd> {
@@ -343,6 +386,13 @@ fn spawn_reader(fd: OwnedFd) -> std::thread::JoinHandle<Vec<u8>> {
 }
 
 // child fd plan: Some(fd) to dup2 onto target, None to close the target
+struct ChildOpts {
+    sig: u8,
+    umask: u8,
+    fds: u8,
+    uid: u8,
+}
+
 struct ChildFds {
     stdin: Option<RawFd>,
     stdout: Option<RawFd>,
@@ -392,6 +442,27 @@ fn run_inner(cfg: &Config, worker: usize, program: &[u8], w: &World, plan: &Plan
     let lay = materialise(&run_root, w, program)?;
     let io_dir = wroot.join("io");
     fs::create_dir_all(&io_dir)?;
+    if w.script_mode != 0 && lay.script.is_file() {
+        use std::os::unix::fs::PermissionsExt;
+        let mode = match w.script_mode {
+            1 => 0o400,
+            2 => 0o755,
+            _ => 0o644,
+        };
+        fs::set_permissions(&lay.script, fs::Permissions::from_mode(mode))?;
+        let secs: i64 = match w.script_mode {
+            3 => 1,
+            4 => 4_102_444_800,
+            _ => -1,
+        };
+        if secs >= 0 {
+            let c = cstr(lay.script.as_os_str().as_bytes());
+            let tv = [libc::timeval { tv_sec: secs, tv_usec: 0 }, libc::timeval { tv_sec: secs, tv_usec: 0 }];
+            unsafe {
+                libc::utimes(c.as_ptr(), tv.as_ptr());
+            }
+        }
+    }
 
     // script identity for the shim
     use std::os::unix::fs::MetadataExt;
@@ -418,6 +489,21 @@ fn run_inner(cfg: &Config, worker: usize, program: &[u8], w: &World, plan: &Plan
             let p = io_dir.join("stdin");
             fs::write(&p, b"print(\"from stdin\")\n")?;
             Some(OwnedFd::from(fs::File::open(&p)?))
+        }
+        4 => {
+            // a terminal on stdin
+            let mut master: RawFd = -1;
+            let mut slave: RawFd = -1;
+            let r = unsafe { libc::openpty(&mut master, &mut slave, std::ptr::null_mut(), std::ptr::null(), std::ptr::null()) };
+            if r != 0 {
+                return Err(std::io::Error::last_os_error());
+            }
+            unsafe {
+                libc::fcntl(master, libc::F_SETFD, libc::FD_CLOEXEC);
+                libc::fcntl(slave, libc::F_SETFD, libc::FD_CLOEXEC);
+                keep.push(OwnedFd::from_raw_fd(master));
+                Some(OwnedFd::from_raw_fd(slave))
+            }
         }
         _ => Some(OwnedFd::from(fs::File::open("/dev/null")?)),
     };
@@ -453,7 +539,12 @@ fn run_inner(cfg: &Config, worker: usize, program: &[u8], w: &World, plan: &Plan
                     libc::tcsetattr(slave, libc::TCSANOW, &t);
                     libc::fcntl(master, libc::F_SETFD, libc::FD_CLOEXEC);
                     libc::fcntl(slave, libc::F_SETFD, libc::FD_CLOEXEC);
-                    Ok((Some(OwnedFd::from_raw_fd(slave)), SinkHandle::Stream(spawn_reader(OwnedFd::from_raw_fd(master)))))
+                    let keep_slave = libc::fcntl(slave, libc::F_DUPFD_CLOEXEC, 3);
+                    if keep_slave < 0 {
+                        return Err(std::io::Error::last_os_error());
+                    }
+                    let (h, count) = spawn_counting_reader(OwnedFd::from_raw_fd(master));
+                    Ok((Some(OwnedFd::from_raw_fd(slave)), SinkHandle::Pty(h, count, OwnedFd::from_raw_fd(keep_slave))))
                 }
             }
             6 => {
@@ -562,6 +653,19 @@ fn run_inner(cfg: &Config, worker: usize, program: &[u8], w: &World, plan: &Plan
     if w.env_pad > 0 {
         push_env("SEEDSIM_PAD", &vec![b'p'; w.env_pad as usize]);
     }
+    // environment entries that are not valid Unicode / not of the form NAME=value
+    let raw_entries: &[&[u8]] = match w.env_bytes {
+        1 => &[b"LAST_VENUE=caf\xe9"],
+        2 => &[b"N\xffME=value"],
+        3 => &[b"LANG=\xff\xfe.UTF-8", b"LC_ALL=\xc3"],
+        4 => &[b"NO_EQUALS_SIGN_HERE"],
+        5 => &[b"=starts_with_equals"],
+        6 => &[b"A=\xe9", b"\x80=\x80", b"HOME=/ro\xf8t", b"USER=\xff", b"TERM=\xfe", b"BARE"],
+        _ => &[],
+    };
+    for e in raw_entries {
+        env.push(e.to_vec());
+    }
     let envp: Vec<CString> = env.iter().map(|e| cstr(e)).collect();
     let cwd_c = cstr(lay.cwd.as_os_str().as_bytes());
 
@@ -573,7 +677,8 @@ fn run_inner(cfg: &Config, worker: usize, program: &[u8], w: &World, plan: &Plan
     };
 
     let stack = w.stack;
-    let pid = unsafe { spawn(&exe_c, &argv, &envp, &cwd_c, &fds, stack) }?;
+    let opts = ChildOpts { sig: w.sig, umask: w.umask, fds: w.fds, uid: w.uid };
+    let pid = unsafe { spawn(&exe_c, &argv, &envp, &cwd_c, &fds, stack, &opts) }?;
     WATCH.lock().unwrap().push((pid, Instant::now()));
 
     // parent: drop our copies of the child's ends so readers see EOF
@@ -609,18 +714,27 @@ fn run_inner(cfg: &Config, worker: usize, program: &[u8], w: &World, plan: &Plan
         Status::Exit(-1)
     };
 
-    let collect = |h: SinkHandle| -> Option<Vec<u8>> {
-        match h {
-            SinkHandle::File(p) => fs::read(p).ok(),
-            SinkHandle::Stream(j) => j.join().ok(),
-            SinkHandle::Nothing => None,
-        }
-    };
-    let sink_stdout = collect(out_h);
-    let sink_stderr = collect(err_h);
     drop(log_fd);
     let raw_log = fs::read(&log_path)?;
     let events = parse_log(&raw_log);
+    let accepted = |fd: i32| -> usize { events.iter().filter(|e| e.kind == 'W' && e.ret > 0 && (e.fd == fd || (w.merged && fd == 1 && e.fd == 2))).map(|e| e.ret as usize).sum() };
+    let collect = |h: SinkHandle, expect: usize| -> Option<Vec<u8>> {
+        match h {
+            SinkHandle::File(p) => fs::read(p).ok(),
+            SinkHandle::Stream(j) => j.join().ok(),
+            SinkHandle::Pty(j, count, keep_slave) => {
+                let t0 = Instant::now();
+                while count.load(std::sync::atomic::Ordering::SeqCst) < expect && t0.elapsed() < Duration::from_secs(5) {
+                    std::thread::sleep(Duration::from_micros(200));
+                }
+                drop(keep_slave);
+                j.join().ok()
+            }
+            SinkHandle::Nothing => None,
+        }
+    };
+    let sink_stdout = collect(out_h, accepted(1));
+    let sink_stderr = collect(err_h, accepted(2));
 
     let mut stdout = vec![];
     let mut stderr = vec![];
@@ -685,7 +799,9 @@ unsafe fn spawn(
     cwd: &CString,
     fds: &ChildFds,
     stack: u8,
+    opts: &ChildOpts,
 ) -> std::io::Result<i32> {
+    let devnull = CString::new("/dev/null").unwrap();
     let mut argv_p: Vec<*const libc::c_char> = argv.iter().map(|c| c.as_ptr()).collect();
     argv_p.push(std::ptr::null());
     let mut envp_p: Vec<*const libc::c_char> = envp.iter().map(|c| c.as_ptr()).collect();
@@ -750,6 +866,54 @@ unsafe fn spawn(
             if fd != LOG_FD {
                 libc::close(fd);
             }
+        }
+        // inherited process state the program did not choose
+        match opts.umask {
+            1 => {
+                libc::umask(0);
+            }
+            2 => {
+                libc::umask(0o077);
+            }
+            3 => {
+                libc::umask(0o777);
+            }
+            _ => {}
+        }
+        if opts.fds > 0 {
+            let top = if opts.fds == 1 { 20 } else { 100 };
+            let d = libc::open(devnull.as_ptr(), libc::O_RDWR);
+            if d >= 0 {
+                for fd in 3..top {
+                    if fd != d {
+                        libc::dup2(d, fd);
+                    }
+                }
+                if d >= top {
+                    libc::close(d);
+                }
+            }
+        }
+        match opts.sig {
+            1 => {
+                libc::signal(libc::SIGPIPE, libc::SIG_DFL);
+            }
+            2 => {
+                for s in [libc::SIGINT, libc::SIGTERM, libc::SIGHUP, libc::SIGPIPE, libc::SIGQUIT] {
+                    libc::signal(s, libc::SIG_IGN);
+                }
+            }
+            3 => {
+                let mut set: libc::sigset_t = std::mem::zeroed();
+                libc::sigfillset(&mut set);
+                libc::sigprocmask(libc::SIG_BLOCK, &set, std::ptr::null_mut());
+            }
+            _ => {}
+        }
+        if opts.uid == 1 {
+            libc::setgroups(0, std::ptr::null());
+            libc::setgid(65534);
+            libc::setuid(65534);
         }
         libc::execve(exe.as_ptr(), argv_p.as_ptr(), envp_p.as_ptr());
         libc::_exit(127);
